@@ -47,7 +47,7 @@ ASSUMPTIONS = [
 
 PI = np.pi
 AZ = (0.0, 0.7, PI / 2, PI, -1.1, -PI, 2 * PI + 0.3, 7.5)
-POLAR_IN = (0.0, 1e-9, 0.4, PI / 2, PI - 0.2, PI - 1e-9, PI)
+POLAR_IN = (0.0, 1e-11, 1e-9, 0.4, PI / 2, PI - 0.2, PI - 1e-9, PI)
 POLAR_OUT = (-0.4, PI + 0.5, 2 * PI + 0.3)
 
 
@@ -55,7 +55,7 @@ def angle_pairs(seed, polar):
     out = []
     for i, (t, p) in enumerate(itertools.product(AZ, polar)):
         tj = lattice.jitter(seed, f"az{i}", t, 0.05) if t not in (0.0, PI, -PI, PI / 2) else t
-        pj = lattice.jitter(seed, f"po{i}", p, 0.05) if p not in (0.0, PI, PI / 2, 1e-9, PI - 1e-9) else p
+        pj = lattice.jitter(seed, f"po{i}", p, 0.05) if p not in (0.0, PI, PI / 2, 1e-9, 1e-11, PI - 1e-9) else p
         out.append((tj, pj))
     return out
 
